@@ -147,7 +147,7 @@ func VerifC12File() {
 	for _, cg := range a1.Comments {
 		vfAssert(cg.Pos() >= lo && cg.End() <= hi, "comments-inside-file")
 	}
-	if vfTier() > 0 || (len(f1.Decs.Start) == 0 && len(f1.Decls) == 0) {
+	if len(f1.Decs.Start) == 0 && (vfTier() > 0 || len(f1.Decls) == 0) {
 		// the second file is restored either by a new restorer or by the very same FileRestorer value
 		fr2 := fr1
 		if vfChoice("sameFileRestorer", 2) == 0 {
